@@ -82,7 +82,7 @@ func checkC18(c ModelCase) (o Outcome) {
 	return
 }
 
-var c20Opts = GenOpts{MaxNodes: 5, MultiHalt: true, Flags: true, EchoInput: true, Errors: false, Sinks: true}
+var c20Opts = GenOpts{MaxNodes: 5, MultiHalt: true, Flags: true, ReservedFl: true, CacheSize: true, EchoInput: true, Errors: false, Sinks: true}
 
 var c20Modes = []app.Mode{{Kind: "persist", Backend: "mem"}, {Kind: "persist", Backend: "fs"}, {Kind: "persist", Backend: "pg"}, {Kind: "persist", Backend: "fsbin"}}
 
